@@ -521,37 +521,82 @@ func c07oalist(c *core.Ctx) {
 		c.Unresolved(R, "(openapi.ObjectInfo).allOf")
 		return
 	}
-	cases := map[string]bool{}
-	loopBad := ""
-	ast.Inspect(d.Decl.Body, func(n ast.Node) bool {
-		switch x := n.(type) {
-		case *ast.CaseClause:
-			calls := false
-			ast.Inspect(x, func(m ast.Node) bool {
-				if call, ok := m.(*ast.CallExpr); ok && strings.HasSuffix(core.ExprStr(call.Fun), ".dereferenceUserTypeProperties") {
-					calls = true
-				}
-				return true
-			})
-			for _, e := range x.List {
-				if calls {
-					cases[core.ExprStr(e)] = true
-				}
-			}
-		case *ast.RangeStmt:
-			ast.Inspect(x.Body, func(m ast.Node) bool {
-				switch y := m.(type) {
-				case *ast.BranchStmt:
-					loopBad = y.Tok.String()
-				case *ast.ReturnStmt:
-					loopBad = "return"
-				}
-				return true
-			})
+	// evaluated per form of the rule: `allOf: "@a"` resolves its one name, `allOf: ["@a", "@b"]`
+	// resolves every item, anything else is refused
+	param := ""
+	if len(d.Decl.Type.Params.List) == 1 && len(d.Decl.Type.Params.List[0].Names) == 1 {
+		param = d.Decl.Type.Params.List[0].Names[0].Name
+	}
+	spk := c.P.Pkg("")
+	tok := func(name string) (int64, bool) {
+		if spk == nil {
+			return 0, false
 		}
-		return true
-	})
-	c.Check(cases["schema.TokenTypeShortcut"] && cases["schema.TokenTypeArray"] && loopBad == "", R, "allOf:forms", c.P.Pos(d.Decl.Pos()), "allOf handles `allOf: \"@a\"` and `allOf: [\"@a\", \"@b\"]`, every list item", core.F("a form of the allOf rule is not followed (shortcut: %v, list: %v, loop exit: %q)", cases["schema.TokenTypeShortcut"], cases["schema.TokenTypeArray"], loopBad))
+		if k, ok := spk.Types.Scope().Lookup(name).(*types.Const); ok {
+			return internString(k.Val().ExactString()), true
+		}
+		return 0, false
+	}
+	shortcut, ok1 := tok("TokenTypeShortcut")
+	array, ok2 := tok("TokenTypeArray")
+	other, ok3 := tok("TokenTypeString")
+	bad := ""
+	if !ok1 || !ok2 || !ok3 || param == "" {
+		bad = "undecided: token type constants or the parameter of allOf were not found"
+	}
+	for _, form := range []struct {
+		name  string
+		tt    int64
+		items int64
+		want  []string
+	}{{"shortcut", shortcut, 0, []string{param + ".Value"}}, {"list", array, 3, []string{"item0", "item1", "item2"}}, {"other", other, 0, nil}} {
+		if bad != "" {
+			break
+		}
+		var got []string
+		e := &miniEval{pk: d.Pkg, env: map[string]int64{param + ".TokenType": form.tt, param + ".Items": form.items}, lens: map[string]bool{param + ".Items": true, "result": true}}
+		loopVar := ""
+		e.hook = func(x ast.Expr) (int64, bool) {
+			call, ok := x.(*ast.CallExpr)
+			if !ok {
+				return 0, false
+			}
+			f := core.ExprStr(call.Fun)
+			switch {
+			case strings.HasSuffix(f, ".dereferenceUserTypeProperties") && len(call.Args) == 1:
+				a := core.ExprStr(call.Args[0])
+				if loopVar != "" && strings.HasPrefix(a, loopVar+".") {
+					a = core.F("item%d", e.env[loopVar])
+				} else if ix, isIx := ast.Unparen(call.Args[0]).(*ast.SelectorExpr); isIx {
+					if ie, isI := ast.Unparen(ix.X).(*ast.IndexExpr); isI && core.ExprStr(ie.X) == param+".Items" {
+						a = core.F("item%d", e.expr(ie.Index))
+					}
+				}
+				got = append(got, a)
+				return 0, true
+			case f == "append" || f == "make" || f == "len":
+				return 0, false
+			}
+			return 0, true
+		}
+		// the loop variable of a range over the items
+		ast.Inspect(d.Decl.Body, func(n ast.Node) bool {
+			if rs, ok := n.(*ast.RangeStmt); ok && core.ExprStr(rs.X) == param+".Items" && rs.Value != nil {
+				loopVar = core.ExprStr(rs.Value)
+			}
+			return true
+		})
+		st, _ := e.run(d.Decl.Body.List)
+		switch {
+		case e.unknown != "":
+			bad = form.name + ": undecided: " + e.unknown
+		case form.want == nil && st != miniPanic:
+			bad = "a rule value that is neither a name nor a list is not refused"
+		case form.want != nil && (st != miniReturn || strings.Join(got, ",") != strings.Join(form.want, ",")):
+			bad = core.F("form %s: resolves %v, expected %v", form.name, got, form.want)
+		}
+	}
+	c.Check(bad == "", R, "allOf:forms", c.P.Pos(d.Decl.Pos()), "allOf handles `allOf: \"@a\"` and `allOf: [\"@a\", \"@b\"]`, every list item", "a form of the allOf rule is not followed: "+bad)
 }
 
 // c07index: keys and children of an object stay aligned.
